@@ -54,7 +54,7 @@ m = {
     "hooks": {
         "guard": "--cfg hydro_project_hydro_verif",
         "enable": "RUSTFLAGS=\"--cfg hydro_project_hydro_verif\" (set by ./check for every engine build; engines depend on /repo crates by path through the /verif/repo symlink)",
-        "baseline_off_cmd": "cd /repo && cargo nextest run --workspace --no-fail-fast --offline --test-threads 8 || cargo test --workspace --no-fail-fast --offline",
+        "baseline_off_cmd": "./tools/baseline_off.sh   # = cd /repo && (no RUSTFLAGS) cargo nextest run --workspace --no-fail-fast --tool-config-file pb:/w/lib/nextest.toml --profile pb --test-threads 8 --offline, then compares with /root/.vp/BASELINE.json stable_pass",
         "source_commits": hooks_commits,
         "add_only": True,
     },
